@@ -296,7 +296,8 @@ impl<'a> SchemaConstructionState<'a> {
 					match logical_type {
 						"decimal" => LogicalType::Decimal(Decimal {
 							precision: field!(precision),
-							scale: field!(scale),
+							// The scale is optional, and is zero when it's not specified
+							scale: object.scale.unwrap_or(0),
 						}),
 						"uuid" => LogicalType::Uuid,
 						"date" => LogicalType::Date,
